@@ -791,6 +791,59 @@ class Item:
         self.rewrite(s0, bs, "let mut %s: usize = 0;/*@pre*/\n    while %s < %s.len()\n    /*@loop*/\n    {\n      let %s = &%s[%s];/*@body*/\n      let vx_e = " % (iv, iv, recv, p, recv, iv), "R3-extend-filter-map")
         self.rewrite(be, semi + 1, ";\n      if let Some(vx_p) = vx_e { %s.push(vx_p); }/*@tail*/\n      %s = %s + 1;\n    }" % (var, iv, iv), "R3-extend-filter-map")
 
+    def r3_map_fold_expr(self, fn, k):
+        """tail expression `RECV.iter().map(|P| BODY).fold(INIT, |ACC, CUR| BODY2)` (no early exits in the bodies)  ==>
+        { let mut ACC = INIT; let mut vx_i = 0; while vx_i < RECV.len() { let P = &RECV[vx_i]; let CUR = BODY; ACC = BODY2; vx_i += 1; } ACC }
+        (the definition of map + fold; BODY, INIT and BODY2 stay in place)"""
+        k0, _, bo, end, _ = self.fn_span(fn)
+        hits = list(re.finditer(r"\.\s*iter\s*\(\s*\)\s*\.\s*map\s*\(", self.m[bo:end]))
+        if len(hits) < k:
+            raise Undecided("LOST-ANCHOR: R3 map-fold-expr #%d in fn %s of %s" % (k, fn, self.where()))
+        h = hits[k - 1]
+        par = bo + h.end() - 1
+        p, bs, be, close = self._closure_after(par)
+        mf = re.match(r"\s*\.\s*fold\s*\(", self.m[close + 1:])
+        if not mf:
+            raise Undecided("R3 map-fold-expr: `.fold(` expected after map(..) at %s:%d" % (self.relpath, self.line_of(close)))
+        fopen = close + 1 + mf.end() - 1
+        fclose = match_brace(self.m, fopen, "(", ")")
+        # INIT , |ACC, CUR| BODY2
+        dep, comma = 0, None
+        for j in range(fopen + 1, fclose):
+            ch = self.m[j]
+            if ch in "([{":
+                dep += 1
+            elif ch in ")]}":
+                dep -= 1
+            elif ch == "," and dep == 0:
+                comma = j
+                break
+        mc = re.match(r"\s*\|\s*([A-Za-z_]\w*)\s*,\s*([A-Za-z_]\w*)\s*\|\s*", self.text[comma + 1:fclose]) if comma else None
+        if not mc:
+            raise Undecided("R3 map-fold-expr: fold arguments not recognised at %s:%d" % (self.relpath, self.line_of(fopen)))
+        acc, cur = mc.group(1), mc.group(2)
+        b2s = comma + 1 + mc.end()
+        if re.search(r"\breturn\b|\?", self.m[bs:be] + self.m[b2s:fclose]):
+            raise Undecided("R3 map-fold-expr: a closure body leaves early (return / ?)")
+        s0 = self._stmt_start(bo + h.start())
+        recv = self.text[s0:bo + h.start()].strip()
+        if not re.match(r"[A-Za-z_][A-Za-z0-9_.]*$", recv):
+            raise Undecided("R3 map-fold-expr: receiver is not a place expression at %s:%d" % (self.relpath, self.line_of(s0)))
+        # layout: { let mut ACC = INIT; <loop header> let CUR = BODY; ACC = BODY2; ... } -- INIT sits after BODY in the source, so it is
+        # moved (logged with the whole expression as `before`)
+        # INIT is moved: edits already registered inside it (R4 shims) are applied to the moved copy
+        inner = sorted([e for e in self.edits if fopen + 1 <= e[0] and e[1] <= comma], key=lambda e: e[0])
+        init, last = "", fopen + 1
+        for e in inner:
+            # (the inner rewrite stays in the log; its markers are dropped because the moved copy lies inside this shape's own marker)
+            init += self.text[last:e[0]] + re.sub(r"/\*\+vxR:\d+\*/|/\*-vxR\*/", "", e[2])
+            last = e[1]
+            self.edits.remove(e)
+        init = (init + self.text[last:comma]).strip()
+        self.rewrite(s0, bs, "{ let mut %s = %s;\n  let mut vx_i: usize = 0;/*@pre*/\n  while vx_i < %s.len()\n  /*@loop*/\n  {\n    let %s = &%s[vx_i];/*@body*/\n    let %s = " % (acc, init, recv, p, recv, cur), "R3-map-fold")
+        self.rewrite(be, b2s, ";\n    %s = " % acc, "R3-map-fold")
+        self.rewrite(fclose, fclose + 1, ";/*@tail*/\n    vx_i = vx_i + 1;\n  }\n  %s }" % acc, "R3-map-fold")
+
     def r3_position_expr(self, fn, k):
         """tail expression `RECV.iter().position(|P| BODY)`  ==>  index loop returning the first index whose BODY holds:
         { let mut vx_pos = None; let mut vx_i = 0; while vx_i < RECV.len() { let P = &RECV[vx_i]; let vx_b = BODY;
